@@ -152,6 +152,18 @@ def chk_malformed(text, origin):
         st, n = attempt(lambda: w.by_path(text))
         results.append((pub, st, n))
     derived = [(pub, n) for pub, st, n in results if st == "ok"]
+    if cls == "wrong-root" and text.split("/")[0].strip() in ("m", "M") and classify_malformed(text.strip()) is None:
+        # white space around an otherwise well-formed path: refusing is fine, and so is reading it as the stripped path - but
+        # then it has to BE that path
+        lst = hdscen.parse_path(text.strip())
+        for pub, n in derived:
+            if any(i >= H for i in lst) and pub:
+                return "violation", [V("%s:by_path:padded-root:hardened-from-public" % P, "by_path(%r) on a watch-only wallet returned %s" % (text, n))]
+            exp = hdscen.canon_ref_node(hd.derive(hdscen.ref_root(dict(MASTER, pub=pub)), lst))
+            if hdscen.canon_impl_node(n) != exp:
+                return "violation", [V("%s:by_path:padded-root:derived-other-key" % P, "by_path(%r) is neither refused nor the node of the stripped path" % text,
+                                       hdscen.canon_impl_node(n), exp)]
+        return "not-judged-padded-root:%s" % ("derived-stripped-path" if derived else "refused"), []
     if origin == "lenient" or cls == "trailing-slash":
         return "not-judged-%s:%s" % (cls, "derived" if derived else "refused"), []
     if derived:
